@@ -137,6 +137,15 @@ def run(pid, tier, seed, update_ledger=False):
         a = agg(fr.obligations)
         nf = sum(a.values())
         if nf == 0:
+            led_names = sorted(n for n in ledger.get(pid, {}).get(fr.qual, {}) if '/cover' not in n)
+            if led_names:
+                # the sites / clauses that carried this function's obligations on the unchanged tree are gone from its body
+                # (moved into a helper that has no contract, or deleted): none of them can be discharged any more (10.7)
+                fr.error = 'no obligation is generated for this function any more (its sites are gone from the body)'
+                unanalysable.append((fr, led_names))
+                per_func.append(dict(function=fr.qual, status='unanalysable', error=fr.error,
+                                     obligations_proved_on_the_unchanged_tree=len(led_names)))
+                continue
             errors.append('%s: zero obligations generated (vacuity guard)' % fr.qual)
         nd = 0
         for i, o in enumerate(fr.obligations):
@@ -200,6 +209,12 @@ def run(pid, tier, seed, update_ledger=False):
                     nd += 1
                     backends[o.get('backend', '?')] = backends.get(o.get('backend', '?'), 0) + 1
                 elif o['status'] == 'failed':
+                    failed.append((fr, i, o))
+                elif o['name'] in ledger.get(pid, {}).get(fn, {}) and 'cannot evaluate' in str(o.get('reason', '')):
+                    # proved on the unchanged tree, and now the generator cannot even state it (the expressions use a
+                    # construct outside its subset, e.g. a call where a literal stood): no longer verifiable (10.7)
+                    o = dict(o, status='failed', reason='no longer verifiable -- %s' % o.get('reason', ''))
+                    lst[i] = o
                     failed.append((fr, i, o))
                 else:
                     undecided.append('%s: %s' % (o['name'], o.get('reason', '')))
